@@ -197,6 +197,45 @@ def _hist(cfg, nonce_len, kdf):
         w.close()
 
 
+def rekey_multi_proposal(v, kdf):
+    """An IKE_SA rekey request with several proposals, each with its own initiator SPI, of which not the first one is acceptable: the keys of the new IKE_SA
+    are cut from prf+(SKEYSEED, Ni | Nr | SPIi | SPIr) with the SPIi of the proposal that was CHOSEN."""
+    import probes
+    import session
+    import wire_ref as W
+    import world as wd
+    from keysched import OracleError
+    n = 0
+    for bad in ('encr', 'prf'):
+        w = wd.World(seed=common.SEED)
+        try:
+            s = session.Session(w, kdf=kdf)
+            s.acquire('A')
+            a = w.sas('A')[0]
+            a.rekey_ike_sa_at = w.now - 1
+            real = W.dec_message(bytes(w.timer('A', a, 'check_rekey_ike_sa_timer')), probes.keys_of(a.my_crypto))
+            good = next(p for p in real['inner'] if p['t'] == W.SA)['proposals'][0]
+            first = dict(good, num=1, spi=b'\x58' * 8,
+                         transforms=[dict(t, id=3, keylen=None) if (bad == 'encr' and t['type'] == 1) else (dict(t, id=99) if (bad == 'prf' and t['type'] == 2) else t) for t in good['transforms']])
+            inner = [dict(p, proposals=[first, dict(good, num=2)]) if p['t'] == W.SA else p for p in real['inner']]
+            req = probes.seal(a, 36, False, real['mid'], inner)
+            res = w.dispatch('B', req, 'A')
+            kind = s.oracle.exchange(bytes(req), bytes(res), 'A', 'B')
+            n += 1
+            if kind != 'rekey-ike':
+                v.violation(f'an IKE_SA rekey whose second proposal is acceptable is not accepted ({kind})', {}, signature={'component': 'rekey-multi:refused'})
+                continue
+            new_b = next(x for x in w.sas('B') if x.state.name == 'ESTABLISHED' and bytes(x.my_spi) != bytes(w.sas('B')[0].my_spi) or x is w.sas('B')[-1])
+            s.oracle.check_ike_keyring(new_b)
+        except OracleError as ex:
+            v.violation(f'IKE_SA rekey with two proposals (the second one chosen): {ex}', {'unacceptable_first': bad}, signature={'component': 'rekey-multi:' + ex.kind})
+        except wd.Escape as ex:
+            v.violation(f'IKE_SA rekey with two proposals: {ex}', {}, signature={'component': 'rekey-multi:escape'})
+        finally:
+            w.close()
+    return n
+
+
 def run(tier, replay=None):
     v = common.Verdict('C04', tier, 'exploration')
     if replay:
@@ -209,6 +248,7 @@ def run(tier, replay=None):
     n_dh, lead = dh_groups(v, tier)
     n_nonce = nonce_lengths(v, kdf)
     n_lz, steered = leading_zero_sessions(v, kdf, tier)
+    v.coverage['rekey_with_two_proposals'] = rekey_multi_proposal(v, kdf)
     # interleavings: crossing CREATE_CHILD_SA exchanges with PFS (each end answers the other's request while its own is outstanding) and the IKE_SA rekey
     # with a retry - every kernel record and every IKE key ring of the replayed Ike.tla behaviours is compared with the plan evaluation
     from checks import ikeprop
